@@ -24,11 +24,38 @@ overlay() { # writes $BUILD/overlay.<hash>.json for $VERIF_REPO, prints its path
   echo "$BUILD/overlay.$tag.json"
 }
 
+instrument() { # runs the range-over-map rewriter on $VERIF_REPO (cached by source hash); prints the dir
+  local tag key rwbin dir
+  tag=$(echo "$VERIF_REPO" | sha256sum | cut -c1-10)
+  key=$( (cd "$VERIF_REPO" && find . -name '*.go' -not -name '*_test.go' -not -path './.git/*' -print0 | sort -z | xargs -0 sha256sum; sha256sum "$ROOT/harness/rewriter/main.go") | sha256sum | cut -c1-12)
+  dir="$BUILD/rw.$tag.$key"
+  if [ ! -f "$dir/overlay.json" ]; then
+    rwbin=$(build rewriter) || exit 2
+    rm -rf "$BUILD"/rw."$tag".* "$dir.tmp.$$"
+    "$rwbin" "$VERIF_REPO" "$dir.tmp.$$" >&2 || { echo "HARNESS-ERROR: rewriter failed" >&2; exit 2; }
+    mv "$dir.tmp.$$" "$dir"
+    # rewritten files were written under the tmp name: fix the paths in the overlay
+    sed -i "s#$dir.tmp.$$#$dir#g" "$dir/overlay.json"
+  fi
+  echo "$dir"
+}
+
 build() { # build <pkgdir-name> -> $BUILD/bin/<name>.<tag>
-  local id="$1" ov tag out
+  local id="$1" ov tag out rw
   ov=$(overlay) || exit 2
   tag=$(echo "$VERIF_REPO" | sha256sum | cut -c1-10)
   out="$BUILD/bin/$id.$tag"
+  if [ -f "$ROOT/harness/$id/INSTRUMENT" ]; then
+    rw=$(instrument) || exit 2
+    python3 - "$ov" "$rw/overlay.json" > "$BUILD/overlay.$tag.$id.json" <<'PY' || exit 2
+import json, sys
+a = json.load(open(sys.argv[1])); b = json.load(open(sys.argv[2]))
+a["Replace"].update(b["Replace"]); json.dump(a, sys.stdout, indent=1)
+PY
+    ov="$BUILD/overlay.$tag.$id.json"
+    export GODEBUG=goindex=0
+    echo "$rw/report.json" > "$BUILD/rwreport.$id.$tag"
+  fi
   if ! (cd "$VERIF_REPO" && go build -tags verif -overlay "$ov" -o "$out" "./verifx/$id") 2> "$BUILD/build.$id.$tag.log"; then
     echo "HARNESS-ERROR: build of harness $id against $VERIF_REPO failed:" >&2
     head -40 "$BUILD/build.$id.$tag.log" >&2
@@ -55,6 +82,8 @@ case "$cmd" in
     id=$(echo "$ID" | tr 'A-Z' 'a-z')
     tier="${1:-${VERIF_TIER:-quick}}"; [ $# -gt 0 ] && shift
     bin=$(build "$id") || exit 2
+    tag=$(echo "$VERIF_REPO" | sha256sum | cut -c1-10)
+    [ -f "$BUILD/rwreport.$id.$tag" ] && export VERIF_REWRITE_REPORT=$(cat "$BUILD/rwreport.$id.$tag")
     exec "$bin" --tier "$tier" "$@"
     ;;
   replay)
@@ -62,6 +91,8 @@ case "$cmd" in
     ID=$(python3 -c 'import json,sys; print(json.load(open(sys.argv[1]))["property"])' "$path") || exit 2
     id=$(echo "$ID" | tr 'A-Z' 'a-z')
     bin=$(build "$id") || exit 2
+    tag=$(echo "$VERIF_REPO" | sha256sum | cut -c1-10)
+    [ -f "$BUILD/rwreport.$id.$tag" ] && export VERIF_REWRITE_REPORT=$(cat "$BUILD/rwreport.$id.$tag")
     exec "$bin" --replay "$path" "$@"
     ;;
   *)
